@@ -30,19 +30,27 @@ SimLocs == {[r |-> r, d |-> d, n |-> n] : r \in {"R", "V1", "V2"}, d \in {"top",
 InitSim ==
   /\ cfg \in SimCfgs
   /\ dirs = {[r |-> r, d |-> "top"] : r \in Regions} \cup {[r |-> r, d |-> d] : r \in {"R", "V1", "V2"}, d \in {"d", "de"}}
-  /\ live = {[r |-> "R", d |-> "d", n |-> "a", o |-> 1], [r |-> "V1", d |-> "d", n |-> "a", o |-> 2],
-             [r |-> "V1", d |-> "de", n |-> "b", o |-> 3], [r |-> "R", d |-> "top", n |-> "b", o |-> 4]}
+  /\ live \in {{[r |-> "R", d |-> "d", n |-> "a", o |-> 1], [r |-> "V1", d |-> "d", n |-> "a", o |-> 2],
+                [r |-> "V1", d |-> "de", n |-> "b", o |-> 3], [r |-> "R", d |-> "top", n |-> "b", o |-> 4]},
+               {[r |-> "R", d |-> "top", n |-> "a", o |-> 1], [r |-> "V1", d |-> "top", n |-> "b", o |-> 2],
+                [r |-> "R", d |-> "d", n |-> "b", o |-> 4]}}
   \* some histories start with entries that another session / implementation left in the volume trash directories
   \* (both $topdir/.Trash/$uid and $topdir/.Trash-$uid may hold entries at the same time)
-  /\ \E seeded \in BOOLEAN :
-       /\ items = IF ~seeded THEN {}
+  \* seeded = 2: infos WITHOUT payload (what a killed restore leaves) under the very names the live entries will want:
+  \* trash-list shows them, and a later put of the same name must neither use nor remove them
+  /\ \E seeded \in 0 .. 2 :
+       /\ (seeded = 2 <=> Cardinality(live) = 3)     \* the stray histories use the smaller live set (restore enumerates listings)
+       /\ items = IF seeded # 1 THEN {}
                   ELSE {[t |-> "t2:V1", o |-> 8, r |-> "V1", d |-> "top", n |-> "a", date |-> 0]}
                        \cup (IF cfg.top["V1"] = "sticky" THEN {[t |-> "t1:V1", o |-> 9, r |-> "V1", d |-> "top", n |-> "b", date |-> 0]} ELSE {})
-       /\ tex = {i.t : i \in items}
-  /\ orph = {} /\ strays = {} /\ junk = {}
+       /\ strays = IF seeded # 2 THEN {}
+                   ELSE {[t |-> "home", id |-> 1, r |-> "R", d |-> "top", n |-> "a", date |-> 0],
+                         [t |-> "t2:V1", id |-> 2, r |-> "V1", d |-> "top", n |-> "b", date |-> 0]}
+       /\ tex = {i.t : i \in items} \cup {k.t : k \in strays}
+  /\ orph = {} /\ junk = {}
   /\ clock = 0 /\ purged = {} /\ out = [cmd |-> "init"]
   /\ hist = << >> /\ done = FALSE
-  /\ init0 = [live |-> live, dirs |-> dirs, tex |-> tex, items |-> items, orph |-> {}, strays |-> {}, junk |-> {}, clock |-> 0, purged |-> {}]
+  /\ init0 = [live |-> live, dirs |-> dirs, tex |-> tex, items |-> items, orph |-> {}, strays |-> strays, junk |-> {}, clock |-> 0, purged |-> {}]
 
 LiveArgs == {[class |-> "entry", r |-> e.r, d |-> e.d, n |-> e.n] : e \in live}
 DefOpts == [force |-> FALSE, inter |-> "off", td |-> "none", hf |-> FALSE, hfenv |-> FALSE]
